@@ -15,7 +15,7 @@ OP_OWNER = {
     "tojson": ["C09", "C14"], "jsonroundtrip": ["C14"],
     "wfault": ["C15"],
     "wf": ["C10"], "callbacks": ["C10"],
-    "sortadv": ["C03"], "conc": ["C11"],
+    "sortadv": ["C03"], "conc": ["C11"], "grpadv": ["C04", "C05"],
     "ryu": ["C16"], "ryudec": ["C16"],
     "like": ["C18"], "likefilter": ["C18"],
     "tosql": ["C19"], "sqlread": ["C19"], "sqlfault": ["C15"], "sqlreadfault": ["C15"],
@@ -47,14 +47,16 @@ PROPS = {
     "C03": {"lean": ["QF.Props.C03"],
             "sections": [hist("hist", ["sort"]),
                          {"section": "sortadv", "quick": 300, "thorough": 3000, "cover_ops": {"SA"}}]},
-    "C04": {"lean": ["QF.Props.C04"], "sections": [hist("hist", ["groupagg", "groupframes"])]},
+    "C04": {"lean": ["QF.Props.C04"],
+            "sections": [hist("hist", ["groupagg", "groupframes"]),
+                         {"section": "grpadv", "quick": 600, "thorough": 6000, "cover_ops": {"GA"}}]},
     "C05": {"lean": ["QF.Props.C05", "QF.Props.C04"], "extra_ns": ["QF.Props.C04"], "sections": [hist("hist", ["distinct"])]},
     "C06": {"lean": ["QF.Props.C06"], "sections": [hist("hist", ["apply", "fapply", "rownums"])]},
     "C07": {"lean": ["QF.Props.C07", "QF.Props.C06"], "extra_ns": ["QF.Props.C06"], "sections": [hist("hist", ["eval"])]},
     "C08": {"lean": ["QF.Props.C08"],
             "sections": [hist("hist", ["select", "drop", "slice", "copy"], cover=["new", "select", "drop", "slice", "copy"]),
                          {"section": "hist", "tag": "hist-new", "opt": "newonly=1", "quick": 150, "thorough": 1500, "cover_ops": {"new"}}]},
-    "C09": {"lean": ["QF.Props.C09", "QF.Props.C06"], "extra_ns": ["QF.Props.C06"],
+    "C09": {"lean": ["QF.Props.C09", "QF.Props.C09Equals", "QF.Props.C06"], "extra_ns": ["QF.Props.C06"],
             "sections": [dict(hist("hist", ["equals", "rebuild", "rebuild", "sort", "sort", "filter", "slice"], quick=250), cover_ops=None)]},
     "C11": {"lean": ["QF.Props.C11"],
             "sections": [{"section": "conc", "race": True, "quick": 150, "thorough": 2000, "cover_ops": {"CC"}}],
@@ -66,7 +68,7 @@ PROPS = {
                          {"section": "csvread", "quick": 300, "thorough": 3000, "cover_ops": {"CV"}}],
             "rule": "cases = (document, read schedule) pairs read by the real fastcsv reader / ReadCSV and replayed through the L0 mirror (exact rows, errors, stale bytes) "
                     "and the RFC 4180 scanner (what the document denotes); distinct by transcript line; every generated document has quotes, delimiters or line breaks in cells with probability > 1/2"},
-    "C16": {"lean": ["QF.Props.C16", "QF.Props.C16Tables"],
+    "C16": {"lean": ["QF.Props.C16", "QF.Props.C16Tables", "QF.Props.C16Layouts"],
             "sections": [{"section": "ryu", "quick": 300, "thorough": 5000, "cover_ops": {"F"}}],
             "open_goals": ["Ryu precision lemma (the truncated 121/122-bit multipliers give the exact floors for all 2^64 inputs) is not proved; the unbounded claim '= strconv text for every float64' is therefore tested, not proved",
                            "mirror of float64ToDecimal over the extracted tables"],
